@@ -1,6 +1,8 @@
 package bbs
 
 import (
+	"strings"
+
 	"github.com/Ptt-official-app/go-pttbbs/ptt"
 	"github.com/Ptt-official-app/go-pttbbs/ptttype"
 )
@@ -17,6 +19,10 @@ func Register(
 	address []byte,
 	over18 bool,
 ) (uuserID UUserID, err error) {
+	// the id is stored as a C string: an embedded NUL would register only the part before it.
+	if strings.IndexByte(username, 0) >= 0 {
+		return "", ptttype.ErrInvalidUserID
+	}
 	userIDRaw := &ptttype.UserID_t{}
 	copy(userIDRaw[:], []byte(username))
 
